@@ -90,6 +90,9 @@ def run_brew_case(case):
             for fl in p["files"]:
                 for r in fl["rows"]:
                     r["tgt"] = not r["tgt"]
+            ref_tr, ref_info = brewrun.run_brew(copy.deepcopy(c))        # the same input in a fresh place: the reference
+            ref = {"raised_type": ref_tr["raised_type"], "descs": [bool(d) for d in ref_info["ret"][3]] if ref_info["ret"] else [],
+                   "scores": {x["id"]: (x["num"], x["den"], x["ok"], x["nan"]) for x in ref_tr["scores"]}}
             try:
                 brewrun.run_brew(p, workdir=wd, keep=True)
             except Exception:
@@ -98,6 +101,7 @@ def run_brew_case(case):
                 tr, info = brewrun.run_brew(c, workdir=wd, keep=True)
             finally:
                 shutil.rmtree(wd, ignore_errors=True)
+            tr["_ref"] = ref
         else:
             tr, info = brewrun.run_brew(c)
     except Exception as e:
@@ -120,7 +124,14 @@ def run_brew_case(case):
             for r, x, rk in zip(fl["rows"], v.tolist(), dense.tolist()):
                 fr = brewrun.frac(x, 10 ** 6)
                 scores.append({"id": r["id"], "num": fr[0], "den": fr[1], "ok": fr[2], "nan": fr[3], "rank": int(rk) + 1})
-    return {"fits": tr["fits"], "train_thr": list(c.get("train_thr", c["thr"])), "direction": c.get("direction") or "",
+    ref = tr.get("_ref")
+    same = True
+    if ref is not None:
+        # projection only: are the two returns (error type, directions, every score as the rational brewrun recorded) identical?
+        mine = {x["id"]: (x["num"], x["den"], x["ok"], x["nan"]) for x in tr["scores"]}
+        same = bool(ref["raised_type"] == tr["raised_type"] and ref["descs"] == descs and ref["scores"] == mine)
+    return {"has_ref": ref is not None, "same_as_ref": same,
+            "fits": tr["fits"], "train_thr": list(c.get("train_thr", c["thr"])), "direction": c.get("direction") or "",
             "thr": list(c["thr"]), "override": bool(c.get("override", False)), "nfiles": len(c["files"]),
             "featnames": ["f1", "f2"], "rows": rows, "models": models, "raised": tr["raised"], "raised_type": tr["raised_type"],
             "calib_error": "Failed to calibrate scores" in tr["raised"], "descs": descs, "scores": scores}
@@ -221,10 +232,19 @@ def run(ctx):
             b["tid"] = len(bad) + 1
             bad.append(b)
     ctx.negative_controls("DecideTrace", "Trace.cfg", bad, name="fallback replaced by all-zero scores")
+    bad = []
+    for t in btr:
+        if bv[t["tid"]]["accept"] and t.get("has_ref") and len(bad) < 20:
+            b = copy.deepcopy(t)
+            b["same_as_ref"] = False
+            b["tid"] = len(bad) + 1
+            bad.append(b)
+    ctx.negative_controls("DecideTrace", "Trace.cfg", bad, name="the return depends on what the path held before")
     ctx.assume("feat_total is what the returned fold models report (Model.feat_pass at train_fdr = test_fdr)")
     return ctx.finish(
         rule="brew: random 60-150 row datasets x estimators {feat, const (cannot learn), anti} x label encodings {1/-1, 1/0, bool} x "
-             "best feature {higher, lower}-is-better x {text, Parquet} x override x folds 2..4 (a second collection every 8th); "
+             "best feature {higher, lower}-is-better x {text, Parquet} x override x folds 2..4 (a second collection every 8th; every 5th also "
+             "after another table at the same path); 2640-3000 row collections with test_fdr 0.005 < train_fdr 0.01; "
              "confidence: canonical tables from ConfGen.tla with descs=[False] (every 4th with True) x flags x chunk sizes; distinct = "
              "distinct parameter tuple", exhaustive=False)
 
